@@ -17,13 +17,24 @@
      Body/AJoin  lock mtx_; joinable? self?   (errors)          PExit   lock; empty? ran:=true : unlock
      PJoinIP     interruption_point                             PCbCall front()() part 1: done-flag:=true
      PJoinAdd    lock(u); ran||terminated ? refused : push_front PCbRes  front()() part 2: resume joiner
-     PJoinChk    while (!done-flag)            [fix of F13]      PCbPop  lock; pop_front; empty? ran:=true
+     PJoinChk    while (!done-flag)            [fix of F13]      PCbPop  lock; pop_front; empty? ran:=true   [pf: see below]
      PJoinSusp   suspend: interruption_point; a_suspend         PFree   lock; exit_funcs_.clear()
      PJoinWake   woken: interruption_point                       PTerm   state := terminated (scheduler)
      PJoinDet    lock mtx_; id_ := invalid   (join returns)
 
    [lp = true] is the code after the `fix:` commit (loop on the completion flag); [lp = false] is
-   the code before it (single suspend, no re-check), kept for the regression witness F13. *)
+   the code before it (single suspend, no re-check), kept for the regression witness F13.
+
+   Session c13e: a joiner may CATCH thread_interrupted ([ACatch] closes a try block: an exception
+   thrown at an interruption point skips the program up to and including the next [ACatch]; without
+   one the thread function ends as before) and join AGAIN.  The completion flag is per CALL
+   (`make_shared<atomic<bool>>` inside join): [flag j u c] is the flag of joiner j's c-th
+   registration ([gen j] counts them), an entry of exit_funcs_ is the pair (j, c); the stale entry of
+   an abandoned join stays registered.
+   [pf = true] is run_thread_exit_callbacks after the second `fix:` commit: the callback is moved
+   out of the list and popped UNDER the lock ([PExit]/[PCbPop] -> [PCbRun j c]), then invoked
+   unlocked.  [pf = false] is the code before it: front()() unlocked ([PCbCall]), pop_front() after
+   re-locking ([PCbPop]) — whatever is the front then; kept for the regression witnesses. *)
 From Coq Require Import List Arith Bool.
 From Pika Require Import Base.Conc Base.Agent.
 Import ListNotations.
@@ -40,7 +51,8 @@ Inductive act :=
   | AStopPoll                   (* body: if stop_requested return *)
   | AIntr (u : nat)             (* interrupt_thread(u, true) *)
   | APoint                      (* this_thread::interruption_point *)
-  | ASetEn (b : bool).          (* set_thread_interruption_enabled / disable_interruption *)
+  | ASetEn (b : bool)           (* set_thread_interruption_enabled / disable_interruption *)
+  | ACatch.                     (* end of `try { ... } catch (thread_interrupted const&) {}` *)
 
 Inductive pcs :=
   | PIdle                                   (* not a task *)
@@ -54,7 +66,8 @@ Inductive pcs :=
   | PJoinWake (k : nat) (d : bool)
   | PJoinDet (k : nat) (d : bool)
   | PIntrWake (u : nat)                     (* set_thread_state(u, pending, abort) *)
-  | PExit | PCbCall | PCbRes (j : nat) | PCbPop | PFree | PTerm | PDone.
+  | PExit | PCbCall | PCbRes (j : nat) | PCbPop | PFree | PTerm | PDone
+  | PCbRun (j c : nat).                     (* pf: callback (j,c) taken out of the list, not yet invoked *)
 
 Inductive ev :=
   | EBodyDone (t : nat)
@@ -69,10 +82,11 @@ Inductive ev :=
 
 Record G := mkG {
   hid : nat -> nat -> bool;          (* thread::id_ of handle (t,k) is valid (joinable) *)
-  cbs : nat -> list nat;             (* exit_funcs_ of task u: the joiners to resume, front first *)
+  cbs : nat -> list (nat * nat);     (* exit_funcs_ of task u: (joiner to resume, its call number), front first *)
   ran : nat -> bool;                 (* ran_exit_funcs_ *)
   term : nat -> bool;                (* state == terminated *)
-  flag : nat -> nat -> bool;         (* completion flag of joiner j's join on task u *)
+  flag : nat -> nat -> nat -> bool;  (* completion flag of joiner j's c-th registration, made at task u *)
+  gen : nat -> nat;                  (* number of registrations made by joiner j so far *)
   req : nat -> bool;                 (* requested_interrupt_ *)
   en : nat -> bool;                  (* enabled_interrupt_ *)
   stopreq : nat -> bool;             (* stop state of the jthread that runs task u *)
@@ -87,22 +101,26 @@ Definition set1 {A} (f : nat -> A) (x : nat) (v : A) : nat -> A :=
   fun y => if Nat.eqb y x then v else f y.
 Definition set2 {A} (f : nat -> nat -> A) (x y : nat) (v : A) : nat -> nat -> A :=
   fun a b => if Nat.eqb a x && Nat.eqb b y then v else f a b.
+Definition set3 {A} (f : nat -> nat -> nat -> A) (x y z : nat) (v : A) : nat -> nat -> nat -> A :=
+  fun a b c => if Nat.eqb a x && Nat.eqb b y && Nat.eqb c z then v else f a b c.
 
-Definition w_hid g x := mkG x (cbs g) (ran g) (term g) (flag g) (req g) (en g) (stopreq g) (ag g) (bdone g) (cbrun g) (log g).
-Definition w_cbs g x := mkG (hid g) x (ran g) (term g) (flag g) (req g) (en g) (stopreq g) (ag g) (bdone g) (cbrun g) (log g).
-Definition w_ran g x := mkG (hid g) (cbs g) x (term g) (flag g) (req g) (en g) (stopreq g) (ag g) (bdone g) (cbrun g) (log g).
-Definition w_term g x := mkG (hid g) (cbs g) (ran g) x (flag g) (req g) (en g) (stopreq g) (ag g) (bdone g) (cbrun g) (log g).
-Definition w_flag g x := mkG (hid g) (cbs g) (ran g) (term g) x (req g) (en g) (stopreq g) (ag g) (bdone g) (cbrun g) (log g).
-Definition w_req g x := mkG (hid g) (cbs g) (ran g) (term g) (flag g) x (en g) (stopreq g) (ag g) (bdone g) (cbrun g) (log g).
-Definition w_en g x := mkG (hid g) (cbs g) (ran g) (term g) (flag g) (req g) x (stopreq g) (ag g) (bdone g) (cbrun g) (log g).
-Definition w_stop g x := mkG (hid g) (cbs g) (ran g) (term g) (flag g) (req g) (en g) x (ag g) (bdone g) (cbrun g) (log g).
-Definition w_ag g x := mkG (hid g) (cbs g) (ran g) (term g) (flag g) (req g) (en g) (stopreq g) x (bdone g) (cbrun g) (log g).
-Definition w_bdone g x := mkG (hid g) (cbs g) (ran g) (term g) (flag g) (req g) (en g) (stopreq g) (ag g) x (cbrun g) (log g).
-Definition w_cbrun g x := mkG (hid g) (cbs g) (ran g) (term g) (flag g) (req g) (en g) (stopreq g) (ag g) (bdone g) x (log g).
-Definition w_log g e := mkG (hid g) (cbs g) (ran g) (term g) (flag g) (req g) (en g) (stopreq g) (ag g) (bdone g) (cbrun g) (e :: log g).
+Definition w_hid g x := mkG x (cbs g) (ran g) (term g) (flag g) (gen g) (req g) (en g) (stopreq g) (ag g) (bdone g) (cbrun g) (log g).
+Definition w_cbs g x := mkG (hid g) x (ran g) (term g) (flag g) (gen g) (req g) (en g) (stopreq g) (ag g) (bdone g) (cbrun g) (log g).
+Definition w_ran g x := mkG (hid g) (cbs g) x (term g) (flag g) (gen g) (req g) (en g) (stopreq g) (ag g) (bdone g) (cbrun g) (log g).
+Definition w_term g x := mkG (hid g) (cbs g) (ran g) x (flag g) (gen g) (req g) (en g) (stopreq g) (ag g) (bdone g) (cbrun g) (log g).
+Definition w_flag g x := mkG (hid g) (cbs g) (ran g) (term g) x (gen g) (req g) (en g) (stopreq g) (ag g) (bdone g) (cbrun g) (log g).
+Definition w_gen g x := mkG (hid g) (cbs g) (ran g) (term g) (flag g) x (req g) (en g) (stopreq g) (ag g) (bdone g) (cbrun g) (log g).
+Definition w_req g x := mkG (hid g) (cbs g) (ran g) (term g) (flag g) (gen g) x (en g) (stopreq g) (ag g) (bdone g) (cbrun g) (log g).
+Definition w_en g x := mkG (hid g) (cbs g) (ran g) (term g) (flag g) (gen g) (req g) x (stopreq g) (ag g) (bdone g) (cbrun g) (log g).
+Definition w_stop g x := mkG (hid g) (cbs g) (ran g) (term g) (flag g) (gen g) (req g) (en g) x (ag g) (bdone g) (cbrun g) (log g).
+Definition w_ag g x := mkG (hid g) (cbs g) (ran g) (term g) (flag g) (gen g) (req g) (en g) (stopreq g) x (bdone g) (cbrun g) (log g).
+Definition w_bdone g x := mkG (hid g) (cbs g) (ran g) (term g) (flag g) (gen g) (req g) (en g) (stopreq g) (ag g) x (cbrun g) (log g).
+Definition w_cbrun g x := mkG (hid g) (cbs g) (ran g) (term g) (flag g) (gen g) (req g) (en g) (stopreq g) (ag g) (bdone g) x (log g).
+Definition w_log g e := mkG (hid g) (cbs g) (ran g) (term g) (flag g) (gen g) (req g) (en g) (stopreq g) (ag g) (bdone g) (cbrun g) (e :: log g).
 
 Section Join.
   Variable lp : bool.                  (* true: join waits in `while (!flag)` (fixed code) *)
+  Variable pf : bool.                  (* true: run_thread_exit_callbacks pops under the lock, then invokes *)
   Variable tgt : nat -> nat -> nat.    (* the task handle (t,k) was created for *)
 
   (* thread_data::interruption_point(): enabled && requested -> requested := false; throw.
@@ -113,6 +131,17 @@ Section Join.
     else None.
 
   Definition ended : L := mkL PBody [].   (* thread function left by thread_interrupted *)
+
+  (* thread_interrupted thrown: control continues behind the innermost enclosing try block's
+     handler ([ACatch]); none: the thread function ends.  Inside ~jthread (noexcept) it ends. *)
+  Fixpoint after_catch (p : list act) : list act :=
+    match p with
+    | [] => []
+    | ACatch :: r => r
+    | _ :: r => after_catch r
+    end.
+  Definition unwind (p : list act) : L := mkL PBody (after_catch p).
+  Definition thrown (d : bool) (p : list act) : L := if d then ended else unwind p.
 
   (* join(): lock mtx_; joinable_locked(); this_id == id_ *)
   Definition join_check (t k : nat) (g : G) : option errc :=
@@ -148,10 +177,11 @@ Section Join.
           else (w_log g (EIntrRefused t u), mkL PBody rest)
         | APoint =>
           match ipoint_step IPExplicit t g with
-          | Some g' => (g', ended)
+          | Some g' => (g', unwind rest)
           | None => (g, mkL PBody rest)
           end
         | ASetEn b => (w_en g (set1 (en g) t b), mkL PBody rest)
+        | ACatch => (g, mkL PBody rest)
         end
       end
     | PIntrWake u => (w_ag g (set1 (ag g) u (a_resume (ag g u))), mkL PBody (prog l))
@@ -163,26 +193,28 @@ Section Join.
       end
     | PJoinIP k d =>
       match ipoint_step IPJoinEntry t g with
-      | Some g' => (g', ended)
+      | Some g' => (g', thrown d (prog l))
       | None => (g, mkL (PJoinAdd k d) (prog l))
       end
     | PJoinAdd k d =>
       let u := tgt t k in
       if ran g u || term g u then (g, mkL (PJoinDet k d) (prog l))
-      else (w_flag (w_cbs g (set1 (cbs g) u (t :: cbs g u))) (set2 (flag g) t u false),
+      else let c := S (gen g t) in     (* a fresh flag for this call *)
+           (w_gen (w_flag (w_cbs g (set1 (cbs g) u ((t, c) :: cbs g u))) (set3 (flag g) t u c false))
+                  (set1 (gen g) t c),
             mkL (PJoinChk k d false) (prog l))
     | PJoinChk k d woken =>
-      if (if lp then flag g t (tgt t k) else woken)
+      if (if lp then flag g t (tgt t k) (gen g t) else woken)
       then (g, mkL (PJoinDet k d) (prog l))
       else (g, mkL (PJoinSusp k d) (prog l))
     | PJoinSusp k d =>
       match ipoint_step IPSuspendPre t g with
-      | Some g' => (g', ended)
+      | Some g' => (g', thrown d (prog l))
       | None => (w_ag g (set1 (ag g) t (fst (a_suspend (ag g t)))), mkL (PJoinWake k d) (prog l))
       end
     | PJoinWake k d =>
       match ipoint_step IPSuspendPost t g with
-      | Some g' => (g', ended)
+      | Some g' => (g', thrown d (prog l))
       | None => (g, mkL (PJoinChk k d true) (prog l))
       end
     | PJoinDet k d =>
@@ -191,28 +223,38 @@ Section Join.
     | PExit =>
       match cbs g t with
       | [] => (w_ran g (set1 (ran g) t true), mkL PFree [])
-      | _ => (g, mkL PCbCall [])
+      | (j, c) :: r => if pf then (w_cbs g (set1 (cbs g) t r), mkL (PCbRun j c) [])
+                       else (g, mkL PCbCall [])
       end
-    | PCbCall =>
+    | PCbCall =>                                        (* pf = false only *)
       match cbs g t with
       | [] => (g, mkL PCbPop [])                      (* not reachable: front() of an empty list *)
-      | j :: _ =>
-        (w_cbrun (if lp then w_flag g (set2 (flag g) j t true) else g) (set2 (cbrun g) j t true),
+      | (j, c) :: _ =>
+        (w_cbrun (if lp then w_flag g (set3 (flag g) j t c true) else g) (set2 (cbrun g) j t true),
          mkL (PCbRes j) [])
       end
+    | PCbRun j c =>                                     (* pf = true only *)
+      (w_cbrun (if lp then w_flag g (set3 (flag g) j t c true) else g) (set2 (cbrun g) j t true),
+       mkL (PCbRes j) [])
     | PCbRes j => (w_ag g (set1 (ag g) j (a_resume (ag g j))), mkL PCbPop [])
     | PCbPop =>
-      match tl (cbs g t) with
-      | [] => (w_ran (w_cbs g (set1 (cbs g) t [])) (set1 (ran g) t true), mkL PFree [])
-      | r => (w_cbs g (set1 (cbs g) t r), mkL PCbCall [])
-      end
+      if pf then
+        match cbs g t with
+        | [] => (w_ran g (set1 (ran g) t true), mkL PFree [])
+        | (j, c) :: r => (w_cbs g (set1 (cbs g) t r), mkL (PCbRun j c) [])
+        end
+      else
+        match tl (cbs g t) with
+        | [] => (w_ran (w_cbs g (set1 (cbs g) t [])) (set1 (ran g) t true), mkL PFree [])
+        | r => (w_cbs g (set1 (cbs g) t r), mkL PCbCall [])
+        end
     | PFree => (w_cbs g (set1 (cbs g) t []), mkL PTerm [])
     | PTerm => (w_ag (w_term g (set1 (term g) t true)) (set1 (ag g) t (a_phase_end (ag g t))), mkL PDone [])
     end.
 
   (* [h0 t k]: handle (t,k) represents a thread initially (false: default-constructed) *)
   Definition g_init (h0 : nat -> nat -> bool) : G :=
-    mkG h0 (fun _ => []) (fun _ => false) (fun _ => false) (fun _ _ => false)
+    mkG h0 (fun _ => []) (fun _ => false) (fun _ => false) (fun _ _ _ => false) (fun _ => 0)
         (fun _ => false) (fun _ => true) (fun _ => false) (fun _ => a_init)
         (fun _ => false) (fun _ _ => false) [].
 
@@ -246,18 +288,18 @@ Definition join_ok_b (tgt : nat -> nat -> nat) (g : G) : bool :=
    [fuel] steps; round-robin until nothing moves *)
 Definition is_final (l : L) : bool := match pc l with PDone | PIdle => true | _ => false end.
 
-Fixpoint run_task (lp : bool) (tgt : nat -> nat -> nat) (fuel t : nat) (c : G * (nat -> L)) : G * (nat -> L) :=
+Fixpoint run_task (lp pf : bool) (tgt : nat -> nat -> nat) (fuel t : nat) (c : G * (nat -> L)) : G * (nat -> L) :=
   match fuel with
   | O => c
   | S f => if blocked (ag (fst c) t) || is_final (snd c t) then c
-           else run_task lp tgt f t (step (tstep lp tgt) c (t, tt))
+           else run_task lp pf tgt f t (step (tstep lp pf tgt) c (t, tt))
   end.
 
-Fixpoint round_robin (lp : bool) (tgt : nat -> nat -> nat) (rounds n : nat) (c : G * (nat -> L)) : G * (nat -> L) :=
+Fixpoint round_robin (lp pf : bool) (tgt : nat -> nat -> nat) (rounds n : nat) (c : G * (nat -> L)) : G * (nat -> L) :=
   match rounds with
   | O => c
-  | S r => round_robin lp tgt r n
-             (fold_left (fun c t => run_task lp tgt 1000 t c) (seq 0 n) c)
+  | S r => round_robin lp pf tgt r n
+             (fold_left (fun c t => run_task lp pf tgt 1000 t c) (seq 0 n) c)
   end.
 
 Definition all_done (n : nat) (c : G * (nat -> L)) : bool :=
